@@ -24,9 +24,12 @@ import (
 	"github.com/slackhq/nebula/cert"
 	"github.com/slackhq/nebula/cert_test"
 	"github.com/slackhq/nebula/config"
+	"github.com/slackhq/nebula/firewall"
 	"github.com/slackhq/nebula/handshake"
 	"github.com/slackhq/nebula/header"
 	"github.com/slackhq/nebula/overlay"
+	"github.com/slackhq/nebula/overlay/batch"
+	"github.com/slackhq/nebula/overlay/tio"
 	"github.com/slackhq/nebula/udp"
 	"go.yaml.in/yaml/v3"
 )
@@ -379,6 +382,48 @@ func (nw *vnNet) TunSend(n *vnNode, pkt []byte) {
 	nw.Settle()
 }
 
+// TunSendSuper pushes a packet or a TSO/USO superpacket through the node's real inside path (consumeInsidePacket and the
+// send batch flush, exactly what listenIn does per packet) on the harness goroutine. The tester tun cannot carry GSO
+// metadata, so this is the only way to reach the superpacket branches. Only call at quiescence.
+func (nw *vnNet) TunSendSuper(n *vnNode, pkt tio.Packet) {
+	f := n.F
+	sb := batch.NewSendBatch(f.writers[0], batch.SendBatchCap, batch.SendBatchCap*(udp.MTU+32))
+	f.consumeInsidePacket(pkt, &firewall.ParsedPacket{}, make([]byte, 12), sb, make([]byte, mtu), 0, nil)
+	f.flushSendBatch(sb, 0)
+	nw.Settle()
+}
+
+// vnUSO builds an IPv4/UDP USO superpacket of k chunks (chunk bytes each, the last one `last` bytes, every chunk starting
+// with its own unique id) and returns it together with the segments the real segmenter makes of it.
+func vnUSO(src, dst netip.Addr, sport, dport uint16, k, chunk, last int) (pkt tio.Packet, segs [][]byte, ids [][16]byte) {
+	var pay []byte
+	for i := 0; i < k; i++ {
+		n := chunk
+		if i == k-1 {
+			n = last
+		}
+		var id [16]byte
+		copy(id[:], "VERIFID!")
+		binary.BigEndian.PutUint64(id[8:], vnPayloadSeq.Add(1))
+		c := make([]byte, n)
+		copy(c, id[:])
+		for j := 16; j < n; j++ {
+			c[j] = byte(j + i)
+		}
+		pay = append(pay, c...)
+		ids = append(ids, id)
+	}
+	b := vnUDP4Raw(src, dst, sport, dport, pay)
+	pkt = tio.Packet{Bytes: b, GSO: tio.GSOInfo{Size: uint16(chunk), HdrLen: 28, CsumStart: 20, Proto: tio.GSOProtoUDP}}
+	if err := tio.SegmentSuperpacket(pkt.Clone(), func(seg []byte) error {
+		segs = append(segs, append([]byte(nil), seg...))
+		return nil
+	}); err != nil {
+		panic(err)
+	}
+	return pkt, segs, ids
+}
+
 // StopAll stops every node, draining outputs so writers never park on full channels.
 func (nw *vnNet) StopAll() {
 	for _, n := range nw.Nodes {
@@ -464,6 +509,27 @@ func vnUDP4Raw(src, dst netip.Addr, sport, dport uint16, payload []byte) []byte 
 	binary.BigEndian.PutUint16(b[24:], uint16(8+len(payload)))
 	copy(b[28:], payload)
 	return b
+}
+
+// vnUDP6 builds an IPv6/UDP packet whose payload starts with a unique 16-byte id (no checksum: nebula does not verify it).
+func vnUDP6(src, dst netip.Addr, sport, dport uint16, extra int) (pkt []byte, id [16]byte) {
+	copy(id[:], "VERIFID!")
+	binary.BigEndian.PutUint64(id[8:], vnPayloadSeq.Add(1))
+	payload := make([]byte, 16+extra)
+	copy(payload, id[:])
+	b := make([]byte, 40+8+len(payload))
+	b[0] = 0x60
+	binary.BigEndian.PutUint16(b[4:], uint16(8+len(payload)))
+	b[6] = 17
+	b[7] = 64
+	s6, d6 := src.As16(), dst.As16()
+	copy(b[8:24], s6[:])
+	copy(b[24:40], d6[:])
+	binary.BigEndian.PutUint16(b[40:], sport)
+	binary.BigEndian.PutUint16(b[42:], dport)
+	binary.BigEndian.PutUint16(b[44:], uint16(8+len(payload)))
+	copy(b[48:], payload)
+	return b, id
 }
 
 // vnPayloadID extracts the unique id of a tun packet built by vnUDP4 (ok=false if not one of ours).
